@@ -163,10 +163,13 @@ PROPS = {
    "UnfoldSpec.lean, independent of the mirror): interface{} targets receive exactly the generic value of the stream "
    "(typed slices/maps where announced); typed targets: `assign` (numeric conversions when the value fits, unmentioned "
    "fields untouched, unknown members skipped).",
-   "Kernel-checked skip clause over all contexts and member values; value-assignment clauses by mirror + correspondence + oracle.",
+   "Kernel-checked skip clause (all contexts x member values) and GENERIC clause (unfold_into_interface(_fresh), "
+   "generic_value_into_container, delivered_value_is_generic, unfold_into_map/slice: every well-formed stream into interface{} / "
+   "map[string]interface{} / []interface{} yields exactly the specification's generic value and restores the context); typed "
+   "targets by scalar conversion lemmas (Props/C11) + mirror + correspondence + oracle.",
    tb=["model: SF/Gotype/Unfold.lean (mirror of gotype/unfold*.go), SF/Gotype/UTypes.lean, Conv.lean, Menagerie.lean; spec: SF/Gotype/UnfoldSpec.lean"],
    assumptions=GOTYPE_ASSUME,
-   partial="generic-value theorem for interface{} targets and the typed-assignment theorem not yet proved (decided by oracle)"),
+   partial="typed-assignment theorem for struct / pointer / typed-container targets not yet proved (decided by the oracle `assign`)"),
  "C14": P("DESIGN.md 7 C14",
    "Lean 4 proof (pre-allocation bound for every announced length; Reset+SetTarget = fresh from any context) + regenerated SSA facts about allocation sites + differential correspondence over mismatches/abandon positions",
    "prealloc_bounded / prealloc_exact / typed_prealloc_le: an announced length allocates min(l,1024) elements for every l; "
@@ -178,10 +181,13 @@ PROPS = {
    "codes; `unf-reuse` = histories of documents on one Unfolder, each abandoned at every position or run to its error, "
    "followed by probe documents compared with a fresh Unfolder. The mirror has an explicit panic outcome for every "
    "empty-stack pop, nil dereference and invalid type code. Oracle: never panic/crash/hang; reused = fresh; depths idle.",
-   "Kernel-checked allocation bound and reset law; no-panic over all (stream, target) pairs by mirror + correspondence + oracle.",
+   "Kernel-checked allocation bound, reset law, and NO PANIC for generic targets on ANY event sequence whatsoever "
+   "(any_events_into_interface, no_panic_any_events_into_interface, no_panic_into_interface: ok or error, the only panic is "
+   "the documented one for an element-type code 17..255 that no producer of this library emits); typed targets by mirror + "
+   "correspondence + oracle.",
    tb=["model: SF/Gotype/Unfold.lean; facts: SF/Gen/Alloc.lean regenerated by sffacts (x/tools SSA)"],
    assumptions=GOTYPE_ASSUME,
-   partial="no-panic theorem over all streams x targets (stack-discipline invariant of the six stacks) not yet proved; "
+   partial="no-panic theorem for TYPED targets (structs, pointers, typed containers) not yet proved; "
            "writes outside the target cannot be exhibited by the model (memory safety of unsafe offsets is a runtime fact: "
            "covered by the unf-type descriptor comparison and Go's checkptr in the race run only)"),
  "C15": dict(P("DESIGN.md 7 C15",
@@ -256,7 +262,9 @@ PROPS = {
    "capacity (incl. <= 0) and every key history the cache returns exactly the key it was given, never panics, keeps map "
    "and ring consistent and refines a textbook LRU. Correspondence: op `lru` drives EnableKeyCache(n)+OnKeyRef on a real "
    "Unfolder, compares ring order and map size after every key (hook), scribbles the source bytes of every key.",
-   "Kernel-checked theorems over the mirror of gotype/symbols.go for every capacity and key history (full).",
+   "Kernel-checked theorems over the mirror of gotype/symbols.go for every capacity and key history (full), and at the level of "
+   "the Unfolder: PropsUnf.C20 cache_does_not_change_unfolded_map / _value (two idle Unfolders differing only in their key "
+   "cache - any capacity, any contents - unfold every well-formed stream into equal targets).",
    tb=["model: SF/Gotype/Symbols.lean mirrors gotype/symbols.go (map + intrusive ring as two lists)"],
    assumptions=["Go map semantics; string(in) copies", "the unfolder passes keyCache.get(key) straight to OnKey (checked by the oracle on the unfolded map)"]),
 }
